@@ -857,9 +857,22 @@ def c05q(prog, rep, R="C05.q"):
     LLP = P + "InternalDelphiLogicalLineParser::"
     reviewed = [P + "ParserContexts::" + m for m in ("update_statuses", "push", "pop", "get_ending_context_idx")] + \
                [LLP + m for m in ("parse_structures", "is_in_statement", "parse_routine", "get_last_context", "get_last_context_type", "get_context_level", "is_in_type_decl")]
-    layout.inventory(rep, R, "functions that scan the stack of parser contexts", rd, reviewed,
+    # a `&self` question all of whose DIRECT callers are reviewed readers is a piece of that reviewed code moved into a helper (the transitive form
+    # of this acceptance is useless here: every parser function is called, some levels down, from parse_structures)
+    part_of = {}
+    for x in rd:
+        if x in reviewed:
+            continue
+        callers = {c.body.npath.split("::{closure")[0] for c in prog.who_calls(x) if c.body.crate.startswith("pasfmt")}
+        xb = prog.body(x)
+        question = xb is not None and xb.arg_count >= 1 and xb.locals[1]["ty"].startswith("&") and not xb.locals[1]["ty"].startswith("&mut")   # `&self`: asks, does not parse
+        if any(x.startswith(r + "::") for r in reviewed) or (question and callers and callers <= set(reviewed)):
+            part_of[x] = sorted(short(c) for c in callers)
+    layout.inventory(rep, R, "functions that scan the stack of parser contexts", [x for x in rd if x not in part_of], reviewed,
                      "whether an enclosing statement has ended is the `is_ended` mark of its context; a scan for one enclosing kind misses the other kinds with the same shape (case / try-except both have an `else` section after `;`)",
-                     helpers=False)   # every parser function is (transitively) called from parse_structures: "a helper of reviewed code" would accept them all
+                     helpers=False)
+    for x, cs in part_of.items():
+        rep.ok(R, {"reader": short(x), "accepted_as_helper_called_only_from": cs})
     rep.floor(R, "readers of ParserContexts.contexts", len(rd), 8)
 
 
